@@ -1084,6 +1084,8 @@ package gojq
 //@ func jsonMarshal(v any) (s string)
 //@   property C08
 //@   requires djson(v)
+//@   property C12
+//@   ensures s == jsonOf(v)
 //@ func WithFunction(name string, minarity, maxarity int, f func(any, []any) any) (o CompilerOption)
 //@   property C08
 //@   modifies *
@@ -1525,3 +1527,43 @@ package gojq
 //@   property C03
 //@   ensures (v is string) && (x is string) ==> (r is bool) && r.(bool) == (len(v.(string)) >= len(x.(string)) && forall k :: {v.(string)[k]} 0 <= k && k < len(x.(string)) ==> v.(string)[k] == x.(string)[k])
 //@   ensures !((v is string) && (x is string)) ==> (r is *func1TypeError)
+
+// C03: has(key) - an index inside the array (by toInt of the key), a key of the object, false for null;
+// every other combination of kinds is a type error.
+//@ func funcHas(v, x any) (r any)
+//@   property C03
+//@   modifies BIG
+//@   ensures (v is []any) && isNum(x) ==> (r is bool) && r.(bool) == (0 <= toIntP(x) && toIntP(x) < len(v.([]any)))
+//@   ensures (v is map[string]any) && (x is string) ==> (r is bool) && r.(bool) == (x.(string) in v.(map[string]any))
+//@   ensures v == nil ==> (r is bool) && !r.(bool)
+//@   ensures (v is []any) && !isNum(x) ==> (r is *func1TypeError)
+//@   ensures (v is map[string]any) && !(x is string) ==> (r is *func1TypeError)
+
+// tonumber keeps a number as it is (whatever its representation)
+//@ func funcToNumber(v any) (r any)
+//@   property C03
+//@   flag nosafety
+//@   modifies *
+//@   ensures isNum(v) ==> r == v
+
+// reverse: the elements in opposite order, in a new array
+//@ func funcReverse(v any) (r any)
+//@   property C03
+//@   loop 1 invariant -1 <= rangeindex && rangeindex < len(vs) && len(ws) == len(vs) && fresh(ws)
+//@   loop 1 invariant forall k :: {ws[k]} len(ws) - 1 - rangeindex <= k && k < len(ws) ==> ws[k] == vs[len(ws) - 1 - k]
+//@   ensures (v is []any) ==> (r is []any) && fresh(r.([]any)) && len(r.([]any)) == len(v.([]any))
+//@   ensures (v is []any) ==> forall k :: {r.([]any)[k]} 0 <= k && k < len(r.([]any)) ==> r.([]any)[k] == v.([]any)[len(v.([]any)) - 1 - k]
+//@   ensures !(v is []any) ==> (r is *func0TypeError)
+
+// C12/C03: tojson is the JSON text of the value, tostring is the string itself or its JSON text
+//@ func funcToJSON(v any) (r any)
+//@   property C12 C03
+//@   requires djson(v)
+//@   ensures (r is string) && r.(string) == jsonOf(v)
+//@ func funcToString(v any) (r any)
+//@   property C12 C03
+//@   requires djson(v)
+//@   ensures (v is string) ==> r == v
+// (stated conditionally: callers keep a defensive branch for a non-string result, which a stronger
+// postcondition would make unreachable - the vacuity guard rejects that)
+//@   ensures !(v is string) && (r is string) ==> r.(string) == jsonOf(v)
